@@ -174,6 +174,16 @@ func opCompile(j Job) (out Res) {
 	ioutil.WriteFile(qp, []byte(str(j, "queries")), 0644)
 	eng := config.Engine(str(j, "engine"))
 	conf := config.SQL{Engine: eng, Schema: []string{sp}, Queries: []string{qp}}
+	if qf, ok := j["query_files"].(map[string]interface{}); ok {
+		// several query files: a directory handed to the compiler as one path (read in sqlpath.Glob order)
+		qd := filepath.Join(dir, "queries")
+		os.MkdirAll(qd, 0755)
+		for name, text := range qf {
+			t, _ := text.(string)
+			ioutil.WriteFile(filepath.Join(qd, name), []byte(t), 0644)
+		}
+		conf.Queries = []string{qd}
+	}
 	res := Res{}
 	if w, _ := j["want_ast"].(bool); w {
 		stmts, perr := parserFor(str(j, "engine")).Parse(strings.NewReader(str(j, "queries")))
